@@ -15,7 +15,7 @@ package timeout
 
 //@ extfunc github.com/failsafe-go/failsafe-go/policy.ExecutionInternal.CopyForCancellable
 //@   modifies nothing
-//@   ensures result != nil && implements(result, policy.ExecutionInternal)
+//@   ensures result != nil && implements(result, policy.ExecutionInternal) && fresh(payload(result))
 //@ extfunc github.com/failsafe-go/failsafe-go/policy.ExecutionInternal.Cancel
 //@   modifies nothing
 
